@@ -1,1 +1,150 @@
 //! Verification hooks (cluster); see `verif/mod.rs`.
+//!
+//! H-CLUSTER: build a real [`ClusterState`] / [`ReplicaLocator`] from an in-memory peer list
+//! (host id, address, datacenter, rack, tokens) and a keyspace -> strategy map through the
+//! production constructors (`ClusterState::new`, `ReplicaLocator::new`). Every peer is rejected
+//! by the host filter, so every `Node` is built by `Node::new_disabled`: no connection pool, no
+//! task and no socket is ever created. Liveness/enablement of such nodes is then decided by the
+//! harness through H-NODE-STATE (`Node::verif_set_state`, in `cluster/node.rs`).
+
+use std::collections::HashMap;
+use std::net::SocketAddr;
+use std::sync::Arc;
+
+use uuid::Uuid;
+
+use crate::cluster::metadata::{Keyspace, Metadata, Peer, Strategy};
+use crate::cluster::node::{Node, NodeAddr};
+use crate::cluster::NodeConfig;
+use crate::cluster::ClusterState;
+use crate::network::{ConnectionConfig, PoolConfig, TcpSocketOptions};
+use crate::observability::metrics::Metrics;
+use crate::policies::host_filter::HostFilter;
+use crate::policies::reconnect::ExponentialReconnectPolicy;
+use crate::routing::ShardAwarePortRange;
+use crate::routing::locator::tablets::TabletsInfo;
+use crate::routing::locator::ReplicaLocator;
+use crate::routing::Token;
+
+/// One row of `system.peers` / `system.local`, as the metadata reader would produce it.
+#[derive(Clone, Debug)]
+pub struct PeerSpec {
+    pub host_id: Uuid,
+    pub address: SocketAddr,
+    pub datacenter: Option<String>,
+    pub rack: Option<String>,
+    pub tokens: Vec<i64>,
+}
+
+/// One keyspace: name, replication strategy and whether it is tablet-based (the keyspace is
+/// created without table metadata; routing does not consult it).
+#[derive(Clone, Debug)]
+pub struct KeyspaceSpec {
+    pub name: String,
+    pub strategy: Strategy,
+    pub tablet_based: bool,
+}
+
+struct RejectAll;
+impl HostFilter for RejectAll {
+    fn accept(&self, _peer: &Peer) -> bool {
+        false
+    }
+}
+
+fn to_peer(p: &PeerSpec) -> Peer {
+    Peer {
+        host_id: p.host_id,
+        address: NodeAddr::Translatable(p.address),
+        tokens: p.tokens.iter().map(|t| Token::new(*t)).collect(),
+        datacenter: p.datacenter.clone(),
+        rack: p.rack.clone(),
+    }
+}
+
+fn to_keyspace(k: &KeyspaceSpec) -> Keyspace {
+    Keyspace {
+        strategy: k.strategy.clone(),
+        durable_writes: true,
+        tablet_based: k.tablet_based,
+        tables: HashMap::new(),
+        views: HashMap::new(),
+        user_defined_types: HashMap::new(),
+    }
+}
+
+/// The production `ClusterState::new` on the given metadata with a reject-all host filter.
+/// Must be awaited inside a tokio runtime (the constructor uses `spawn_blocking`).
+pub async fn cluster_state(peers: &[PeerSpec], keyspaces: &[KeyspaceSpec]) -> ClusterState {
+    let metadata = Metadata {
+        peers: peers.iter().map(to_peer).collect(),
+        keyspaces: keyspaces
+            .iter()
+            .map(|k| (k.name.clone(), Ok(to_keyspace(k))))
+            .collect(),
+        cluster_name: Some("verif".to_owned()),
+        client_routes: None,
+    };
+    let (connectivity_events_sender, _) = tokio::sync::mpsc::unbounded_channel();
+    // Never used: every node is disabled, so no pool is ever built from this configuration.
+    // (Spelled out because `PoolConfig: Default` exists only under cfg(test).)
+    let pool_config = PoolConfig {
+        connection_config: ConnectionConfig {
+            local_ip_address: None,
+            shard_aware_local_port_range: ShardAwarePortRange::EPHEMERAL_PORT_RANGE,
+            compression: None,
+            tcp_socket_options: TcpSocketOptions::default(),
+            timestamp_generator: None,
+            tls_provider: None,
+            connect_timeout: std::time::Duration::from_secs(5),
+            event_sender: None,
+            default_consistency: Default::default(),
+            authenticator: None,
+            address_translator: None,
+            write_coalescing_delay: None,
+            keepalive_interval: None,
+            keepalive_timeout: None,
+            tablet_sender: None,
+            identity: Default::default(),
+        },
+        pool_size: Default::default(),
+        can_use_shard_aware_port: true,
+        reconnect_policy: Arc::new(ExponentialReconnectPolicy::new()),
+    };
+    let node_config = NodeConfig {
+        pool_config,
+        used_keyspace: None,
+        connectivity_events_sender,
+        metrics: Metrics::new().into(),
+    };
+    ClusterState::new(metadata, &node_config, Some(&RejectAll)).await
+}
+
+/// The production `ReplicaLocator::new` over disabled nodes built from `peers`, precomputing
+/// for exactly the given strategies. Synchronous (no runtime needed). Returns the nodes in
+/// peer order next to the locator.
+pub fn replica_locator(
+    peers: &[PeerSpec],
+    precompute_for: &[Strategy],
+) -> (ReplicaLocator, Vec<Arc<Node>>) {
+    let mut ring: Vec<(Token, Arc<Node>)> = Vec::new();
+    let mut nodes = Vec::with_capacity(peers.len());
+    for p in peers {
+        let (endpoint, tokens) = to_peer(p).into_peer_endpoint_and_tokens();
+        let node = Arc::new(Node::new_disabled(endpoint));
+        for t in tokens {
+            ring.push((t, Arc::clone(&node)));
+        }
+        nodes.push(node);
+    }
+    let locator = ReplicaLocator::new(ring.into_iter(), precompute_for.iter(), TabletsInfo::new());
+    (locator, nodes)
+}
+
+/// H-NODE-STATE convenience: install (`Some((enabled, connected))`) or remove (`None`) the
+/// per-node override on every node of `cluster` selected by `f(host_id)`.
+pub fn set_node_states(cluster: &ClusterState, f: impl Fn(Uuid) -> Option<(bool, bool)>) {
+    for node in cluster.get_nodes_info() {
+        node.verif_set_state(f(node.host_id));
+    }
+}
